@@ -609,7 +609,8 @@ def _lint(ctx, prop):
         prt, nprt = lint.rule_PRT1(ctx, files)
         tw, ntw = lint.rule_TW1(ctx, files)
         one, none_ = lint.rule_ONE1(ctx, files)
-        out += [sw, ov, n1, d3, cp, nb, zq, prt, tw, ang, one]
+        aux1, naux1 = angles.rule_AUX1(ctx, files)
+        out += [sw, ov, n1, d3, cp, nb, zq, prt, tw, ang, one, aux1]
     return out
 
 
